@@ -1,7 +1,7 @@
 (* C16 - apply rules create exactly the matching objects, with or without the name fast path.
    Only the property theorems, each closed by [exact] of a lemma proved under Apply/, each followed
    by Print Assumptions.  Model: Apply/ArModel.v; premises and oracle: Apply/ArObs.v. *)
-From Icv Require Import Base.Tac Apply.ArModel Apply.ArObs Apply.ArProofs Apply.ArOrder Apply.ArWitness.
+From Icv Require Import Base.Tac Apply.ArModel Apply.ArObs Apply.ArProofs Apply.ArOrder Apply.ArWitness Apply.ArFacts.
 From Coq Require Import Permutation.
 Local Open Scope Z_scope.
 
@@ -74,14 +74,22 @@ Proof.
 Qed.
 Print Assumptions C16_service_order_independent.
 
-(* FilterUtility::GetFilterTargets: fast path and evaluation return the same SET of objects for ALL filters
-   and filter_vars (those naming host/service/obj are evaluated since the fix), provided names are '!'-free
+(* FilterUtility::GetFilterTargets: fast path and evaluation return the same SET of objects for ALL filters,
+   ALL filter_vars and ALL values of the navigation fields (filter_vars named obj/host/service or like a
+   navigation field of the target type are evaluated since the fixes), provided names are '!'-free
    (ConfigItemBuilder enforces that) *)
-Theorem C16_api_fast_path : forall genv inv to_svc fvars f,
+Theorem C16_api_fast_path : forall genv navv inv to_svc fvars f,
   ar_api_premises inv = true ->
-  ar_same_keys (ar_api_fast genv inv to_svc fvars f) (ar_api_plain genv inv to_svc fvars f) = true.
+  ar_same_keys (ar_api_fast genv navv inv to_svc fvars f) (ar_api_plain genv navv inv to_svc fvars f) = true.
 Proof. exact ar_api_fast_eq. Qed.
 Print Assumptions C16_api_fast_path.
+
+(* the navigation field names of the model = what checkable.ti / service.ti declare now (regenerated fact) *)
+Theorem C16_source_facts :
+  ar_nav_fact_ok Facts.Facts_c18.f_pm_nav_host (ar_nav_names false) /\
+  ar_nav_fact_ok Facts.Facts_c18.f_pm_nav_service (ar_nav_names true).
+Proof. exact ar_nav_facts. Qed.
+Print Assumptions C16_source_facts.
 
 (* the executable oracle run over implementation traces never fires on what the model produces *)
 Theorem C16_oracle_accepts_model : forall genv inv rules wrules,
@@ -108,13 +116,20 @@ Proof. exact ar_for_error_refuted. Qed.
 Print Assumptions C16_for_error_on_unindexed_target_refuted.
 
 Theorem C16_api_filter_var_named_like_target_fixed :
-  let f := AEEq ar_w_hostname (AEVar ar_s_host) in
-  let fv := [(ar_s_host, AVStr ar_w_h)] in
-  ar_api_vars_ok fv = false /\
-  ar_target_hosts (Some fv) f = Some [ar_w_h] /\
-  ar_api_fast ar_w_genv ar_w_inv false fv f = Some [] /\
-  ar_api_plain ar_w_genv ar_w_inv false fv f = Some [].
-Proof. exact ar_api_filter_var_fixed. Qed.
+  (let f := AEEq ar_w_hostname (AEVar ar_s_host) in
+   let fv := [(ar_s_host, AVStr ar_w_h)] in
+   ar_api_vars_ok false fv = false /\
+   ar_target_hosts (Some fv) f = Some [ar_w_h] /\
+   ar_api_fast ar_w_genv ar_w_navv ar_w_inv false fv f = Some [] /\
+   ar_api_plain ar_w_genv ar_w_navv ar_w_inv false fv f = Some []) /\
+  (forall nv, In nv [ar_s_check_command; ar_s_check_period] ->
+   let f := AEEq ar_w_hostname (AEVar nv) in
+   let fv := [(nv, AVStr ar_w_h)] in
+   ar_api_vars_ok false fv = false /\
+   ar_target_hosts (Some fv) f = Some [ar_w_h] /\
+   ar_api_fast ar_w_genv ar_w_navv ar_w_inv false fv f = Some [] /\
+   ar_api_plain ar_w_genv ar_w_navv ar_w_inv false fv f = Some []).
+Proof. exact (conj ar_api_filter_var_fixed ar_api_nav_var_fixed). Qed.
 Print Assumptions C16_api_filter_var_named_like_target_fixed.
 
 (* non-vacuity: a rule the recogniser accepts, whose premises hold, creating a real object *)
